@@ -74,7 +74,7 @@ PROPS = {
     ),
     "C20": _p(
         "Concatenation/join macros and CStr conversions equal their std counterparts",
-        kani=["c20"], verus=["c20", "c20b"], level="proof",
+        kani=["c20", "c20m"], verus=["c20", "c20b"], level="proof",
         level_text="Verus: from_bytes_until_nul(_inner)/from_bytes_with_nul succeed exactly when a nul exists / the first nul is last and discharge CStr::from_bytes_with_nul_unchecked's precondition; "
                    "slice concat kernels (concat_sum_lengths, concat_slices) equal <[&[T]]>::concat. String concat/join kernels, CStr->bytes/str pointer walks and constant macro instances: Kani (bounded)",
         technique="Verus contracts on CStr constructors and slice-concat kernels; Kani bounded harnesses vs real CStr / concat / join",
@@ -166,6 +166,16 @@ PROPS = {
     ), inventory=True,
        kani_filter="^(c01_|c02_mut_u16$|c02_chunks_u16_2$|c02_try_into_array_mut$|c07_contract_|c07_decode_encode_id$|c07_encode_utf8$|c11_map_ok_n2$|c11_map_break_panics_n2$|c11_builder_ops_n2$|c11_builder_build_nonfull_panics$|c15_consumer_n2$|c15_builder_n2$|c15_destructure_arrays$|c20_cstr)",
        kani_filter_thorough="^(c01_|c02_mut_|c02_chunks_|c02_try_into_array|c07_contract_|c07_decode_encode_id$|c07_encode_utf8$|c07_from_u32$|c11_|c15_|c20_cstr)"),
+    "C19": dict(_p(
+        "Option/Result, rebind and min/max macros equal their std/`?` counterparts",
+        kani=["c19", "c19r"], verus=["c19"], level="proof",
+        level_text="Verus: every arm of the option::/result:: macros (closure-literal and function-path forms; 30 arms), try_! and try_opt!, as functions generic in the payload types (probe wrappers expanded by rustc), "
+                   "against std's method of the same name, with the call discipline expressed through closure specs (the fallback may be called only on the variant where std calls it). "
+                   "Kani complete harnesses (loop-free, full u8 domains): the same macros with call counters, rebind_if_ok!/try_rebind! for arities 1..=6 (arity 1-2 all position mixes; 3: all 4^3; 4-6: uniform/one-hot rows; "
+                   "a compile obligation guards arities >= 3), min!/max!/_by/_by_key with tagged pairs incl. ties",
+        technique="Verus contracts with closure specs on rustc-expanded probe wrappers + Kani complete harnesses (call counters, tagged pairs) + a compile obligation for the rebind program family",
+        assumptions=["probe wrappers are one macro call each (/verif/probes/src/lib.rs)", "result::unwrap_err_or_else has no std method: the reference is the mirror of unwrap_or_else"],
+    ), compile_probes={"c19r": "C19.rebind.arity3_to_6.compiles"}),
 }
 
 NOT_APPLICABLE = {
@@ -177,5 +187,4 @@ NOT_APPLICABLE = {
 # properties whose check is not built yet (listed under not_applicable until it is)
 PENDING = {
     "C06": "check under construction",
-    "C19": "check under construction",
 }
